@@ -9,13 +9,16 @@ import z3
 
 _V = z3.Datatype("Val")
 _V.declare("none")
-_V.declare("boolv", ("b", z3.BoolSort()))
-_V.declare("numv", ("isint", z3.BoolSort()), ("r", z3.RealSort()))
-_V.declare("infv", ("neg", z3.BoolSort()))
+# selector names are long on purpose: short ones (b, r, s, id) clash with bound variables when the
+# obligations are re-read by cvc5
+_V.declare("boolv", ("v_bool", z3.BoolSort()))
+_V.declare("numv", ("v_isint", z3.BoolSort()), ("v_real", z3.RealSort()))
+_V.declare("infv", ("v_neg", z3.BoolSort()))
 _V.declare("nanv")
-_V.declare("strv", ("s", z3.StringSort()))
-_V.declare("refv", ("id", z3.IntSort()))
+_V.declare("strv", ("v_str", z3.StringSort()))
+_V.declare("refv", ("v_id", z3.IntSort()))
 Val = _V.create()
+Val.b, Val.isint, Val.r, Val.neg, Val.s, Val.id = Val.v_bool, Val.v_isint, Val.v_real, Val.v_neg, Val.v_str, Val.v_id
 
 NONE = Val.none
 NAN = Val.nanv
